@@ -49,5 +49,6 @@ def run(ctx):
     R3.r03_15_tag_class_direction(ctx, 'R01.14')
     # one node reached by two references of different expected types is written in place per reference (known finding F19b)
     R3.r18_10_reference_owned_node(ctx, 'R01.15')
+    S.r04_5_strip_tags(ctx, 'R01.16')
     from . import memo_rules as M
     M.memo_sound(ctx, 'R01.M')
